@@ -5,6 +5,7 @@ package main
 // only at new symbolic branches, queueing the alternative.
 
 import (
+	"go/token"
 	"fmt"
 	"os"
 	"sort"
@@ -295,6 +296,7 @@ type Exec struct {
 	sv   *Solver
 	alt  *Solver
 	prog *ssa.Program
+	lastPos token.Pos // position of the instruction being executed (fork profile)
 
 	decisions []Decision
 	pos       int
@@ -620,6 +622,9 @@ func (e *Exec) noteFork() {
 		return
 	}
 	site := e.curFn()
+	if w, _ := e.srcLine(e.lastPos); w != "" {
+		site += " @" + w
+	}
 	e.x.mu.Lock()
 	if e.x.forkSites == nil {
 		e.x.forkSites = map[string]int{}
